@@ -100,26 +100,31 @@ def parseRat (l : List Char) : NumParse Rat :=
 
 def padLeft (n : Nat) (l : List Char) : List Char := List.replicate (n - l.length) '0' ++ l
 
-/-- `ostream << double` (`%g`, 6 significant digits) for the doubles it prints exactly and
-without exponent: at most 6 significant digits, `1e-4 ≤ |q| < 1e6`, or 0 -/
-def renderRat? (q : Rat) : Option (List Char) :=
-  let neg := q < 0
-  let a := if neg then -q else q
-  let sign := if neg then ['-'] else []
+/-- the decimal digits of `n` as written by `ostream << n` -/
+def D (n : Nat) : List Char := (toString n).toList
+
+/-- a number text: optional `-`, digits, optionally `.` and digits -/
+def numText (neg : Bool) (ip fp : List Char) : List Char :=
+  (if neg then ['-'] else []) ++ ip ++ (if fp.isEmpty then [] else '.' :: fp)
+
+/-- rendering of `±a` for `a ≥ 0` -/
+def renderAbs? (neg : Bool) (a : Rat) : Option (List Char) :=
   if a == 0 then some ['0']
   else if a ≥ 1000000 || a < 1 / 10000 then none
   else
+    -- the least number `j` of decimals with which `a` is written exactly
     match (List.range 11).find? (fun j => (a * ((10 ^ j : Nat) : Rat)).den == 1) with
     | none => none
     | some j =>
-      let m := (a * ((10 ^ j : Nat) : Rat)).num.toNat
-      let digits := (toString m).toList
-      if j == 0 then some (sign ++ digits)
-      else if digits.length > 6 then none
-      else
-        let ip := m / 10 ^ j
-        let fp := m % 10 ^ j
-        some (sign ++ (toString ip).toList ++ ['.'] ++ padLeft j (toString fp).toList)
+      let m := (a * ((10 ^ j : Nat) : Rat)).num.toNat      -- all the digits
+      if j == 0 then some (numText neg (D m) [])
+      else if (D m).length > 6 then none                  -- more than 6 significant digits
+      else some (numText neg (D (m / 10 ^ j)) (padLeft j (D (m % 10 ^ j))))
+
+/-- `ostream << double` (`%g`, 6 significant digits) for the doubles it prints exactly and
+without exponent: at most 6 significant digits, `1e-4 ≤ |q| < 1e6`, or 0 -/
+def renderRat? (q : Rat) : Option (List Char) :=
+  renderAbs? (decide (q < 0)) (if q < 0 then -q else q)
 
 instance : NumText Rat := ⟨renderRat?, parseRat⟩
 /-- at `Float` the text form is not modelled -/
